@@ -52,7 +52,7 @@ func (a *Addressing) ExtractMailbox(address string) (string, error) {
 		return "", fmt.Errorf("domain part %q in %q failed validation", domain, address)
 	}
 
-	return local + "@" + domain, nil
+	return local + "@" + canonicalDomain(domain), nil
 }
 
 // NewRecipient parses an address into a Recipient. This is used for parsing RCPT TO arguments,
@@ -241,7 +241,17 @@ func extractDomainMailbox(address string) (string, error) {
 		return "", fmt.Errorf("domain part %q in %q failed validation", domain, address)
 	}
 
-	return domain, nil
+	return canonicalDomain(domain), nil
+}
+
+// canonicalDomain lower-cases a validated domain for use in a mailbox name, so the name does not
+// depend on the letter case the sender used.  The tag of an IPv6 address literal keeps its case,
+// because ValidateDomainPart only recognises it as written in RFC 5321.
+func canonicalDomain(domain string) string {
+	if strings.HasPrefix(domain, "[IPv6:") {
+		return "[IPv6:" + strings.ToLower(domain[6:])
+	}
+	return strings.ToLower(domain)
 }
 
 // parseEmailAddress unescapes an email address, and splits the local part from the domain part.  An
